@@ -216,6 +216,11 @@ func cmdCheck(args []string) {
 			if *tier == "thorough" {
 				c2.Timeout = 90 * time.Second
 			}
+			if s == seed+2 && len(again) <= 8 {
+				// a handful of stragglers: most likely a loaded machine, give them time and room
+				c2.Timeout = 120 * time.Second
+				c2.Workers = 4
+			}
 			c2.AllAgree = false
 			Solve(again, c2)
 		}
